@@ -182,7 +182,7 @@ def part_b(ctx):
         oe = stdtrace.end_event(oev[m["oracle_job"]]) if m.get("oracle_job") in oev else None
         what = "std/%s: chunked run differs from the one-shot run of the same binary: clauses %s at trace line %d; input %s [%s], schedule %s\n  event: %s\n  one-shot end: %s" % (
             m.get("dec"), r["clauses"], r["line"], os.path.basename(m.get("input", "?")), m.get("origin"), json.dumps(m.get("class")),
-            {k: v for k, v in ev.items() if k != "stderr_tail"}, oe)
+            _short(ev), oe)
         saved = None
         if m.get("input") and os.path.exists(m["input"]):
             import shutil
@@ -197,6 +197,7 @@ def part_b(ctx):
     tokstats = stdtrace.token_stats({**{k: v for k, v in oev.items() if stdinputs.KIND.get(meta.get(k, {}).get("dec")) == "token"}, **sev})
     tokstats["scheduled_jobs_compared_by_normal_form"] = sum(1 for j in sjobs if stdinputs.KIND.get(meta[j["id"]]["dec"]) == "token")
     tokstats["normal_form_model"] = tokmc
+    tokstats["corrupted_trace_selftest"] = token_selftest(ctx, traces, tokstats)
     return {"jobs": len(sjobs), "oracle_jobs": len(ojobs), "events": nev, "distinct": len(distinct), "tokens": tokstats,
             "samples": [{"decoder": meta[j["id"]]["dec"], "input": os.path.basename(meta[j["id"]]["input"]), "schedule": meta[j["id"]]["class"],
                          "calls": (stdtrace.end_event(sev.get(j["id"], [])) or {}).get("calls")} for j in sjobs[:: max(1, len(sjobs) // 5)][:5]]}
@@ -232,6 +233,35 @@ def token_model_finish(mc):
     if box["err"] is not None:
         raise box["err"]
     return [{"config": r["label"], "logical_streams": r["distinct"], "wall_s": r["wall_s"]} for r in box["res"]]
+
+
+def token_selftest(ctx, traces, tokstats):
+    """Guards against vacuous acceptance: token jobs must have logged tokens, and a recorded trace with ONE token's
+    length changed / ONE value bit flipped must be rejected by TLC with the clause that owns it."""
+    if tokstats["token_decoder_jobs"] and not tokstats["tokens_validated_by_tlc"]:
+        raise ToolingError("token decoders ran but no event carries tokens: the driver's recording is gone")
+    pick = None
+    for jid, evs in traces:
+        end = stdtrace.end_event(evs)
+        calls = [e for e in evs if e.get("k") == "call" and len(e.get("tk", ())) >= 3]
+        if end and end.get("cls") == "ok" and end.get("tok_recorded") and calls and len(evs) < 400 and any(e.get("k") == "expect" and "otk" in e for e in evs):
+            pick = (jid, evs)
+            break
+    if pick is None:
+        return {"ran": False}
+    out = {"ran": True}
+    for name, clause in (("length of a recorded token", "TokenLengthsPartitionSource"), ("value of an oracle token", "NormalFormEqualsOracle")):
+        evs = json.loads(json.dumps(pick[1]))
+        if clause == "TokenLengthsPartitionSource":
+            [e for e in evs if e.get("k") == "call" and len(e.get("tk", ())) >= 3][0]["tk"][1][4] += 1
+        else:
+            [e for e in evs if e.get("k") == "expect"][0]["otk"][1][2] += 1
+        n, rej = stdtrace.validate(ctx, [(pick[0], evs)], "split", "C05b selftest " + name.split()[0])
+        got = sorted({c for r in rej for c in r["clauses"]})
+        if clause not in got:
+            raise ToolingError("self-test: a trace with the %s corrupted was not rejected for %s (got %s)" % (name, clause, got))
+        out[name] = got
+    return out
 
 
 def token_schedules(rng, dec, n, ntok, thorough):
@@ -276,6 +306,11 @@ def run(ctx):
         "std oracle = one-shot run of the same freshly generated binary",
     ])
 
+
+
+def _short(ev):
+    """An event for a message: the recorded token / byte arrays are elided (the replay file keeps them)."""
+    return {k: (v if not (isinstance(v, list) and len(v) > 12) else v[:12] + ["... %d more" % (len(v) - 12)]) for k, v in ev.items() if k != "stderr_tail"}
 
 def replay(ctx, path):
     print(json.dumps(json.load(open(path))["replay"], indent=1)[:8000])
